@@ -176,6 +176,10 @@ def run_special(pid, tier, seed, work, cfg):
         if len(res["samples"]) < 3:
             res["samples"].append(cj["desc"])
         if cj["status"] != ci["status"]:
+            if cj["desc"].get("kind") == "direct-one-sample-axis" and cj["desc"].get("list_call") and (cj["status"], ci["status"]) == ("SystemError", "IndexError"):
+                # known finding F25: an IndexError raised inside the prange region of the list kernel surfaces as SystemError
+                res["violations"].append({"key": "C19:one-sample-axis-list-call", "what": "list call on a one-sample axis: compiled raises SystemError, the interpreter IndexError", "replay": cj["desc"]})
+                continue
             res["violations"].append({"key": "C19:branch", "what": f"compiled raised/returned {cj['status']} but the interpreter {ci['status']}", "replay": cj["desc"]})
             continue
         if set(cj["values"]) != set(ci["values"]):
